@@ -1,0 +1,27 @@
+//go:build !verif
+
+/*
+ Licensed to the Apache Software Foundation (ASF) under one
+ or more contributor license agreements.  See the NOTICE file
+ distributed with this work for additional information
+ regarding copyright ownership.  The ASF licenses this file
+ to you under the Apache License, Version 2.0 (the
+ "License"); you may not use this file except in compliance
+ with the License.  You may obtain a copy of the License at
+
+     http://www.apache.org/licenses/LICENSE-2.0
+
+ Unless required by applicable law or agreed to in writing, software
+ distributed under the License is distributed on an "AS IS" BASIS,
+ WITHOUT WARRANTIES OR CONDITIONS OF ANY KIND, either express or implied.
+ See the License for the specific language governing permissions and
+ limitations under the License.
+*/
+
+package scheduler
+
+import "github.com/apache/yunikorn-core/pkg/scheduler/objects"
+
+// verifMidCycle is the interleaving point between the two halves of a scheduling cycle (the application level
+// allocation and the partition level processing of its result). Without the "verif" build tag it does nothing.
+func verifMidCycle(_ *PartitionContext, _ *objects.AllocationResult) {}
